@@ -532,11 +532,43 @@ func raceNotifier(ov *raceOverlap, scripts [][]int) {
 	var n bigbuff.Notifier
 	ctx, cancel := context.WithCancel(context.Background())
 	defer cancel()
+	// two standing subscriptions per key (a pointer and an interface element type), drained until the end, so that
+	// the very first publishes of the program already have somebody to deliver to
+	var sw sync.WaitGroup
+	stopDrain := make(chan struct{})
+	var standing []func()
+	for key := 0; key < 2; key++ {
+		tp, ta := make(chan *racePayload, 1), make(chan any, 1)
+		n.Subscribe(key, tp)
+		n.Subscribe(key, ta)
+		standing = append(standing, func() { n.Unsubscribe(key, tp); n.Unsubscribe(key, ta) })
+		sw.Add(1)
+		go func() {
+			defer sw.Done()
+			for {
+				select {
+				case v := <-tp:
+					raceReadPayload(v)
+				case v := <-ta:
+					raceReadPayload(v)
+				case <-stopDrain:
+					return
+				}
+			}
+		}()
+	}
+	defer func() {
+		for _, f := range standing {
+			f()
+		}
+		close(stopDrain)
+		sw.Wait()
+	}()
 	raceRun(scripts, func(g int, script []int) {
 		for _, op := range script {
 			key := op % 2
 			switch {
-			case op < 50:
+			case op < 40:
 				// subscribe, receive for a while, cancel, unsubscribe (context cancelled before Unsubscribe, as documented)
 				target := make(chan *racePayload)
 				sctx, scancel := context.WithCancel(ctx)
@@ -557,7 +589,7 @@ func raceNotifier(ov *raceOverlap, scripts [][]int) {
 				d = ov.enter("Unsubscribe")
 				n.Unsubscribe(key, target)
 				d()
-			case op < 60:
+			case op < 50:
 				target := make(chan any, 1)
 				d := ov.enter("SubscribeCancel")
 				c := n.SubscribeCancel(ctx, key, target)
@@ -567,7 +599,14 @@ func raceNotifier(ov *raceOverlap, scripts [][]int) {
 			default:
 				d := ov.enter("PublishContext")
 				pctx, pcancel := context.WithTimeout(ctx, 300*time.Microsecond)
-				n.PublishContext(pctx, key, raceNewPayload(op))
+				switch op % 5 {
+				case 0, 2:
+					n.PublishContext(pctx, key, nil) // an untyped nil reaches every nilable element type
+				case 1:
+					n.PublishContext(pctx, key, (*racePayload)(nil))
+				default:
+					n.PublishContext(pctx, key, raceNewPayload(op))
+				}
 				pcancel()
 				d()
 			}
